@@ -3,10 +3,16 @@
 package kvhist
 
 import (
+	"encoding/json"
 	"fmt"
+	"sort"
 	"strconv"
 	"strings"
 
+	"github.com/janelia-flyem/dvid/datastore"
+	"github.com/janelia-flyem/dvid/datatype/keyvalue"
+	"github.com/janelia-flyem/dvid/dvid"
+	"github.com/janelia-flyem/dvid/storage"
 	"verif/harness/dv"
 	"verif/harness/lib"
 )
@@ -22,15 +28,16 @@ type Hop struct {
 }
 
 type Hist struct {
-	Rng    *lib.Rand
-	UUIDs  []string // index = model version id - 1
-	Locked map[int]bool
-	Ops    []Hop
-	Obs    []string
-	Root   string
-	Inst   string // data instance name
-	NextX  int
-	NB     int
+	Rng     *lib.Rand
+	UUIDs   []string // index = model version id - 1
+	Locked  map[int]bool
+	Ops     []Hop
+	Obs     []string
+	Root    string
+	Inst    string // data instance name
+	NoBatch bool   // never use the storage-level batch path (unversioned instances: it bypasses the request routing)
+	NextX   int
+	NB      int
 }
 
 func (h *Hist) URL(v int, rest string) string {
@@ -68,6 +75,55 @@ func (h *Hist) Put(k, v int) {
 	h.NextX++
 	r := dv.Post(h.URL(v, fmt.Sprintf("key/k%d", k)), []byte(strconv.Itoa(h.NextX)))
 	h.record(Hop{Op: "put", K: k, V: v, X: h.NextX}, acc(r.Status == 200))
+}
+
+// batchWrite performs one put (x > 0) or delete through the storage engine's batch path
+// (storage.KeyValueBatcher: goBatch.Put / goBatch.Delete), as block- and index-writing data
+// types do, bypassing HTTP.  Only used on uncommitted versions.
+func (h *Hist) batchWrite(k, v, x int) bool {
+	uuid := dvid.UUID(h.UUIDs[v-1])
+	d, err := datastore.GetDataByUUIDName(uuid, dvid.InstanceName(h.Inst))
+	if err != nil {
+		return false
+	}
+	ver, err := datastore.VersionFromUUID(uuid)
+	if err != nil {
+		return false
+	}
+	db, err := datastore.GetOrderedKeyValueDB(d)
+	if err != nil {
+		return false
+	}
+	batcher, ok := db.(storage.KeyValueBatcher)
+	if !ok {
+		return false
+	}
+	ctx := datastore.NewVersionedCtx(d, ver)
+	tk, _ := keyvalue.NewTKey(fmt.Sprintf("k%d", k))
+	b := batcher.NewBatch(ctx)
+	if x > 0 {
+		kd, ok := d.(*keyvalue.Data)
+		if !ok {
+			return false
+		}
+		val, err := dvid.SerializeData([]byte(strconv.Itoa(x)), kd.Compression(), kd.Checksum())
+		if err != nil {
+			return false
+		}
+		b.Put(tk, val)
+	} else {
+		b.Delete(tk)
+	}
+	return b.Commit() == nil
+}
+
+// BatchPut / BatchDel: recorded as ordinary put / delete operations of the model.
+func (h *Hist) BatchPut(k, v int) {
+	h.NextX++
+	h.record(Hop{Op: "put", K: k, V: v, X: h.NextX, How: "batch"}, acc(h.batchWrite(k, v, h.NextX)))
+}
+func (h *Hist) BatchDel(k, v int) {
+	h.record(Hop{Op: "del", K: k, V: v, How: "batch"}, acc(h.batchWrite(k, v, 0)))
 }
 
 func (h *Hist) Del(k, v int) {
@@ -134,15 +190,18 @@ func (h *Hist) Sweep(nkeys int) {
 }
 
 // New creates a repo with one keyvalue instance and returns an empty history on it.
-func New(rng *lib.Rand, inst string) (*Hist, error) {
+func New(rng *lib.Rand, inst string) (*Hist, error) { return NewWith(rng, inst, nil) }
+
+// NewWith passes extra settings to the instance creation (e.g. "versioned": "false").
+func NewWith(rng *lib.Rand, inst string, extra map[string]string) (*Hist, error) {
 	root, err := dv.NewRepo("kvhist")
 	if err != nil {
 		return nil, err
 	}
-	if err := dv.NewInstance(root, "keyvalue", inst, nil); err != nil {
+	if err := dv.NewInstance(root, "keyvalue", inst, extra); err != nil {
 		return nil, err
 	}
-	return &Hist{Rng: rng, Locked: map[int]bool{}, UUIDs: []string{root}, Root: root, Inst: inst}, nil
+	return &Hist{Rng: rng, Locked: map[int]bool{}, UUIDs: []string{root}, Root: root, Inst: inst, NoBatch: extra != nil}, nil
 }
 
 // Replay re-issues recorded requests.
@@ -151,9 +210,17 @@ func (h *Hist) Replay(ops []Hop) {
 		switch o.Op {
 		case "put":
 			h.NextX = o.X - 1
-			h.Put(o.K, o.V)
+			if o.How == "batch" {
+				h.BatchPut(o.K, o.V)
+			} else {
+				h.Put(o.K, o.V)
+			}
 		case "del":
-			h.Del(o.K, o.V)
+			if o.How == "batch" {
+				h.BatchDel(o.K, o.V)
+			} else {
+				h.Del(o.K, o.V)
+			}
 		case "commit":
 			h.Commit(o.V)
 		case "child":
@@ -171,9 +238,17 @@ func (h *Hist) Random(nops, nkeys, maxNodes int) {
 		open, lk := h.OpenList(), h.LockedList()
 		switch x := rng.Intn(100); {
 		case x < 30 && len(open) > 0:
-			h.Put(rng.Intn(nkeys), open[rng.Intn(len(open))])
+			if !h.NoBatch && rng.Chance(0.3) {
+				h.BatchPut(rng.Intn(nkeys), open[rng.Intn(len(open))])
+			} else {
+				h.Put(rng.Intn(nkeys), open[rng.Intn(len(open))])
+			}
 		case x < 42 && len(open) > 0:
-			h.Del(rng.Intn(nkeys), open[rng.Intn(len(open))])
+			if !h.NoBatch && rng.Chance(0.3) {
+				h.BatchDel(rng.Intn(nkeys), open[rng.Intn(len(open))])
+			} else {
+				h.Del(rng.Intn(nkeys), open[rng.Intn(len(open))])
+			}
 		case x < 45 && len(lk) > 0: // write to a committed node: must be refused
 			if rng.Bool() {
 				h.Put(rng.Intn(nkeys), lk[rng.Intn(len(lk))])
@@ -232,6 +307,43 @@ func (h *Hist) CoqOps() string {
 			}
 			ss[i] = fmt.Sprintf("OChild [%s] %s", strings.Join(ps, ";"), lib.CoqBool(h.Obs[i] == "OAccepted"))
 		}
+	}
+	return "[" + strings.Join(ss, ";") + "]"
+}
+
+// RangeObs reads all keys of the instance at version v through the range endpoint
+// (keyrangevalues, JSON form) and prints `(v, Some [(k,x);...])` or `(v, None)` when the request
+// failed or its body is not the JSON object the API promises.
+func (h *Hist) RangeObs(inst string, v int) string {
+	r := dv.Get("/api/node/" + h.UUIDs[v-1] + "/" + inst + "/keyrangevalues/k0/k9?json=true")
+	if r.Status != 200 {
+		return fmt.Sprintf("(%d, None)", v)
+	}
+	var m map[string]int
+	if err := json.Unmarshal(r.Body, &m); err != nil {
+		return fmt.Sprintf("(%d, None)", v)
+	}
+	var ks []int
+	for name := range m {
+		var k int
+		if _, err := fmt.Sscanf(name, "k%d", &k); err != nil {
+			return fmt.Sprintf("(%d, None)", v)
+		}
+		ks = append(ks, k)
+	}
+	sort.Ints(ks)
+	var ss []string
+	for _, k := range ks {
+		ss = append(ss, fmt.Sprintf("(%d,%d)", k, m[fmt.Sprintf("k%d", k)]))
+	}
+	return fmt.Sprintf("(%d, Some [%s])", v, strings.Join(ss, ";"))
+}
+
+// RangeSweep prints the range observations of every version.
+func (h *Hist) RangeSweep(inst string) string {
+	var ss []string
+	for v := 1; v <= len(h.UUIDs); v++ {
+		ss = append(ss, h.RangeObs(inst, v))
 	}
 	return "[" + strings.Join(ss, ";") + "]"
 }
